@@ -641,6 +641,10 @@ def p6(ck: Check, acc: dict[str, str]) -> None:
     # ... and the object an accessor hands out *is* the cached object: changing it in place changes the cache behind the
     # accessor's back (after a reclaim the accessor recomputes the unmodified value)
     accessors = {q.split(".")[-1]: fld for fld, q in acc.items() if fld in cleared}
+    # the result lists are handed out the same way (seeds and sets are parallel lists: re-ordering one of them through the
+    # alias breaks their correspondence)
+    accessors.update({"node_attractor_seeds": "attractor_seeds", "node_attractor_sets": "attractor_sets",
+                      "node_attractor_candidates": "attractor_candidates"})
     mut = {"append", "extend", "insert", "remove", "pop", "clear", "sort", "reverse", "add", "discard", "update", "setdefault",
            "popitem", "remove_node", "remove_nodes_from", "remove_edge", "remove_edges_from", "add_node", "add_edge",
            "add_nodes_from", "add_edges_from", "set_update_function", "set_variable_name", "difference_update", "intersection_update"}
